@@ -187,7 +187,7 @@ def strhex2float(x, signed=True, n_word=None, n_frac=None, return_sizes=False):
         return val
 
 def str2num(x, signed=True, n_word=None, n_frac=None, base=10, return_sizes=False):
-    if isinstance(x, (list, tuple)):
+    if isinstance(x, (list, tuple)) or (isinstance(x, np.ndarray) and x.ndim > 0 and x.dtype.kind in 'US'):
         _signed_max = False
         _n_word_max = None
         _n_frac_max = None
